@@ -836,11 +836,27 @@ func TestC13Kinds(t *testing.T) {
 		w.SaveAccountMeta(l, "u:1", map[string]string{"role": "x"}, false)
 		ik := "ik-" + rapid.SampledFrom([]string{"1", "x y", `q"`}).Draw(rt, "ik")
 		genOp := func(label string) evOp {
-			o := evOp{Kind: rapid.SampledFrom([]string{"create", "revert", "revert", "saveTxMeta", "deleteTxMeta", "saveAccMeta", "deleteAccMeta"}).Draw(rt, label+"Kind"), IK: ik}
+			o := evOp{Kind: rapid.SampledFrom([]string{"create", "createScript", "revert", "revert", "saveTxMeta", "deleteTxMeta", "saveAccMeta", "deleteAccMeta"}).Draw(rt, label+"Kind"), IK: ik}
 			switch o.Kind {
 			case "create":
 				amt := int64(rapid.SampledFrom([]int{1, 5, 40}).Draw(rt, label+"Amt"))
 				o.Post = ledger.Postings{ledger.NewPosting("bank", rapid.SampledFrom([]string{"u:1", "u:2"}).Draw(rt, label+"Dst"), "USD/2", big.NewInt(amt))}
+			case "createScript":
+				// a script that sets transaction metadata itself, with or without a metadata object in the request
+				o.Kind = "create"
+				amt := rapid.SampledFrom([]int{1, 5, 40}).Draw(rt, label+"Amt")
+				o.Script = fmt.Sprintf("send [USD/2 %d] (\n source = @bank\n destination = @%s\n)", amt, rapid.SampledFrom([]string{"u:1", "u:2"}).Draw(rt, label+"Dst"))
+				if rapid.IntRange(0, 3).Draw(rt, label+"SetsMeta") != 0 {
+					o.Script += "\nset_tx_meta(\"origin\", \"script\")"
+				}
+				switch rapid.IntRange(0, 2).Draw(rt, label+"ReqMeta") {
+				case 0:
+					o.MetaNil = true
+				case 1:
+					o.Meta = map[string]string{}
+				default:
+					o.Meta = map[string]string{"k": rapid.SampledFrom([]string{"v", "w"}).Draw(rt, label+"ReqVal")}
+				}
 			case "revert":
 				o.TxID = uint64(rapid.IntRange(1, 2).Draw(rt, label+"Tx"))
 				o.Force = rapid.Bool().Draw(rt, label+"Force")
